@@ -12,7 +12,10 @@ def _run(n):
     series = [rng.standard_normal((L, N)) + 5.0 * (np.arange(L) % K)[:, None] for L in lens]
     kw = dict(window_size=W, num_clusters=K, iteration_limit=lim, min_cluster_size=1, sparsity_weight=0.1,
               label_switching_cost=1.0)
-    fe = (lambda **k: fast_ticc.ticc_joint_labels(list(series), **k)) if n.get('joint') else \
+    def wrap():
+        kind = n.get('container', 'list')
+        return list(series) if kind == 'list' else tuple(series) if kind == 'tuple' else (a for a in series)
+    fe = (lambda **k: fast_ticc.ticc_joint_labels(wrap(), **k)) if n.get('joint') else \
          (lambda **k: fast_ticc.ticc_labels(series[0], **k))
     if n.get('W_first'):
         # call history: an earlier call on the very same arrays with another window size
@@ -72,7 +75,10 @@ def _scripted(n):
               label_switching_cost=1.0)
     rounds = [[int(x) for x in r] for r in n['round_labels']]
     T = sum(L - W + 1 for L in lens)
-    fe = (lambda **k: fast_ticc.ticc_joint_labels(list(series), **k)) if n.get('joint') else \
+    def wrap():
+        kind = n.get('container', 'list')
+        return list(series) if kind == 'list' else tuple(series) if kind == 'tuple' else (a for a in series)
+    fe = (lambda **k: fast_ticc.ticc_joint_labels(wrap(), **k)) if n.get('joint') else \
          (lambda **k: fast_ticc.ticc_labels(series[0], **k))
     if n.get('W_first'):
         W1 = int(n['W_first'])
